@@ -403,8 +403,13 @@ static size_t pick_capacity(unsigned sel, unsigned arg, size_t n,
     return cap;
 }
 
-static size_t codec_maxlen(unsigned k) {
+static size_t codec_maxlen2(unsigned k, int large) {
     size_t scale = vf_tier() == 1 ? 4 : 1;
+    if (large && k != K_GROUP) {
+        /* a fixed share of long arrays (runs and blocks far longer than any
+         * internal chunk size) */
+        return 70000;
+    }
     switch (k) {
     case K_GROUP:
         return VARINT_GROUP_MAX_FIELDS;
@@ -415,6 +420,9 @@ static size_t codec_maxlen(unsigned k) {
         return 5000 * scale;
     }
 }
+static size_t codec_maxlen(unsigned k) {
+    return codec_maxlen2(k, 0);
+}
 
 void vf_run(vf_rd *r, vf_report *rep) {
     unsigned k = vf_u8(r) % K_COUNT;
@@ -422,8 +430,12 @@ void vf_run(vf_rd *r, vf_report *rep) {
     unsigned caparg = vf_u16(r);
     unsigned startarg = vf_u16(r);
     vf_arr a;
-    vf_take_array(r, &a, codec_maxlen(k), k_flags(k));
+    const int large = (startarg & 31) == 31 || (vf_tier() == 1 && (startarg & 15) == 15);
+    vf_take_array(r, &a, codec_maxlen2(k, large), k_flags(k));
     const size_t n = a.n;
+    if (n > 20000) {
+        vf_class("arr.n>20000");
+    }
     const char *capcls = "";
     size_t cap = pick_capacity(capsel, caparg, n, &capcls);
     size_t start = k == K_FOR_BLOCK ? startarg % n : 0;
